@@ -9,6 +9,7 @@ RULE = ("class grid first (boundary set x boundary set for every binary op, boun
         "operand) with classes re-derived by the monitor from the logged integers (0, 1, -1, (m+-1)/2, Montgomery "
         "radix family, small, top, limb-boundary, generic); distinct_nontrivial counts distinct such keys that contain "
         "at least one non-generic operand class or a non-success outcome, per build")
+RULE += (" " + 'from_repr / cmp are also driven on raw values whose limbs stand in every combination of (<,=,>) to the limbs of the modulus.')
 ASSUMPTIONS = ["CPython integer arithmetic", "driver forwards operands 1:1 (from_repr/into_repr are the observation channel and are themselves under test here)"]
 EXHAUSTIVE = ["shift amounts 0..=width+1 for shr/shl on both representation types", "boundary-set x boundary-set for add/sub/mul/cmp in both fields"]
 MIN_EVALS = {"quick": 100000, "thorough": 2000000}
